@@ -208,3 +208,37 @@ def fold_freq_getter(repo, meth):
             return None
         out[state] = (r[1] if isinstance(r, tuple) else None, calls)
     return out
+
+
+def sim_cmd_effects(L, repo, rule):
+    """Accepted simulation commands store what was asked: the absolute forms set base and threshold, the relative
+    forms ADD the (signed) delta to the base configured so far, SETTA stores the advance over its whole -128..127 range.
+    FakeTRX.ctrl_cmd_handler is folded from a state in which every base differs from zero and from its default, so that
+    `=`, `+=` and `=+` (or a clamp) give different results."""
+    from pyutil import rel
+    FF = rel("fake_trx")
+    fn = "FakeTRX.ctrl_cmd_handler"
+    L.fn(FF, fn)
+    S0 = {"self.toa256_base": 100, "self.toa256_rand_threshold": 7, "self.rssi_base": -71, "self.rssi_rand_threshold": 3,
+          "self.ci_base": 55, "self.ci_rand_threshold": 4, "self.ta": 2, "self.fake_rssi_enabled": False}
+    cases = [
+        (["SETTA", "5"], {"self.ta": 5}), (["SETTA", "0"], {"self.ta": 0}), (["SETTA", "63"], {"self.ta": 63}),
+        (["SETTA", "-1"], {"self.ta": -1}), (["SETTA", "-128"], {"self.ta": -128}), (["SETTA", "127"], {"self.ta": 127}),
+        (["FAKE_TOA", "50", "9"], {"self.toa256_base": 50, "self.toa256_rand_threshold": 9}),
+        (["FAKE_TOA", "-300", "0"], {"self.toa256_base": -300, "self.toa256_rand_threshold": 0}),
+        (["FAKE_TOA", "-20"], {"self.toa256_base": 80}), (["FAKE_TOA", "+20"], {"self.toa256_base": 120}),
+        (["FAKE_TOA", "0"], {}),
+        (["FAKE_RSSI", "-80", "2"], {"self.rssi_base": -80, "self.rssi_rand_threshold": 2, "self.fake_rssi_enabled": True}),
+        (["FAKE_RSSI", "-5"], {"self.rssi_base": -76}), (["FAKE_RSSI", "6"], {"self.rssi_base": -65}),
+        (["FAKE_CI", "30", "1"], {"self.ci_base": 30, "self.ci_rand_threshold": 1}),
+        (["FAKE_CI", "-10"], {"self.ci_base": 45}), (["FAKE_CI", "10"], {"self.ci_base": 65}),
+    ]
+    n = 0
+    for req, want in cases:
+        f = fold_fake_cmd(repo, req, dict(S0))
+        n += 1
+        got = {k: v for k, v in f.changed.items() if k in S0 or k in want}
+        status = f.ret[0] if isinstance(f.ret, tuple) else f.ret
+        L.require(rule, FF, fn, "CMD %s from base ToA 100 / RSSI -71 / C/I 55 / TA 2: status and stored settings" % " ".join(req),
+                  (0, want), ("raises %s" % f.raised if f.raised else status, got))
+    L.floor(rule, "accepted simulation commands folded", n, 15)
